@@ -17,7 +17,7 @@ ASSUMPTIONS = [
     "case-insensitive cases use only characters on which str.upper, str.lower, str.casefold and re.IGNORECASE agree",
 ]
 GATES = ["mon.C07.get", "mon.C07.roundtrip_abs", "mon.C07.roundtrip_rel", "C07.err.ResolverError", "C07.err.RootResolverError", "C07.err.ChildResolverError",
-         "C07.relaxed_miss_first", "C07.relaxed_miss_middle", "C07.relaxed_miss_last", "C07.ignorecase_hit", "C07.sep_other"]
+         "C07.relaxed_miss_first", "C07.relaxed_miss_middle", "C07.relaxed_miss_last", "C07.ignorecase_hit", "C07.sep_other", "C07.wildcard_chars_in_names", "C07.after_mutation"]
 
 _CLS = {}
 
@@ -62,11 +62,11 @@ def observe(f, *a):
     return ("ret", r)
 
 
-def check_get(ctx, lib, nodes, idmap, par, ch, names, start, path, sep, ic, relax, case, pathattr="name"):
+def check_get(ctx, lib, nodes, idmap, par, ch, names, start, path, sep, ic, relax, case, pathattr="name", resolver=None):
     ctx.count("mon.C07.get")
     snames = [str(x) for x in names]
     exp = RR.ref_get(par, ch, snames, start, path, sep, ic)
-    r = lib.Resolver(pathattr, ignorecase=ic, relax=relax)
+    r = resolver if resolver is not None else lib.Resolver(pathattr, ignorecase=ic, relax=relax)
     obs = observe(r.get, nodes[start], path)
     cfg = dict(case, start=start, path=path, ignorecase=ic, relax=relax)
     if exp[0] == "node":
@@ -192,7 +192,10 @@ def run(ctx):
         ic = bool(r % 2)
         kind = ("Node", "AnyNode", "NM", "LM")[(r // 2) % 4]
         pathattr = "name"
-        names = gen.unique_sibling_names(rng, ch, sep=sep, hostile=True, ignorecase=ic)
+        wild = r % 3 == 1
+        names = gen.unique_sibling_names(rng, ch, sep=sep, hostile=True, ignorecase=ic, wild=wild)
+        if wild and any("*" in x or "?" in x for x in names):
+            ctx.count("C07.wildcard_chars_in_names")
         if kind == "AnyNode" and r % 3 == 0:
             pathattr = "id"
             if r % 6 == 0:
@@ -203,6 +206,9 @@ def run(ctx):
         case = {"kind": kind, "sep": sep, "par": list(par), "names": names, "pathattr": pathattr}
         roundtrips(ctx, lib, nodes, idmap, par, ch, names, sep, ic, case, pathattr)
         comps_pool = snames + [x.swapcase() for x in snames] + ["..", "..", ".", "", "nope", "zz"]
+        if r % 3 != 0:
+            # wildcard characters are ordinary characters for get
+            comps_pool += ["*", "?", "a*", "s*"] + [x[:-1] + "?" for x in snames[:4]] + [x[:1] + "*" for x in snames[:4]]
         for q in range(30):
             ln = rng.randint(0, 5)
             comps = [rng.choice(comps_pool) for _ in range(ln)]
@@ -218,9 +224,97 @@ def run(ctx):
             for relax in (False, True):
                 ctx.case((r, s, p, ic, relax), nontrivial=p != "", sample=dict(case, start=s, path=p, ignorecase=ic, relax=relax) if (r * 30 + q) % 4001 == 0 else None)
                 check_get(ctx, lib, nodes, idmap, par, ch, names, s, p, sep, ic, relax, case, pathattr)
+    histories(ctx, lib)
+
+
+def histories(ctx, lib):
+    """Long-lived Resolver objects are reused while the tree is renamed and restructured between queries."""
+    from .. import trees as TR
+
+    T = ctx.tier == "thorough"
+    nh = (3000 if T else 240) // ctx.nshards + 1
+    pool = ["a", "b", "A", "B", "n1", "ab", "x*", "a?", "c"]
+    for h in range(nh):
+        rng = ctx.rng("hist", h)
+        k = rng.randint(3, 8)
+        res = {(ic, relax): lib.Resolver("name", ignorecase=ic, relax=relax) for ic in (False, True) for relax in (False, True)}
+        names = None
+        renames = []
+        for nodes, par, ch, case in TR.evolving_universe(ctx, rng, "Node", k, rng.randint(4, 16)):
+            if names is None:
+                names = [n.name for n in nodes]
+            for _ in range(rng.randint(0, 2)):
+                i = rng.randrange(k)
+                new = rng.choice(pool)
+                if rng.random() < 0.3:
+                    j = rng.randrange(k)  # swap two names
+                    names[i], names[j] = names[j], names[i]
+                    nodes[i].name, nodes[j].name = names[i], names[j]
+                    renames.append([len(case["history"]), "swap", i, j])
+                else:
+                    names[i] = new
+                    nodes[i].name = new
+                    renames.append([len(case["history"]), "set", i, new])
+            ctx.count("C07.after_mutation")
+            idmap = {id(o): i for i, o in enumerate(nodes)}
+            c2 = dict(case, kind="hist", sep="/", names=list(names), renames=[list(x) for x in renames])
+            for q in range(10):
+                s = rng.randrange(k)
+                t = rng.randrange(k)
+                form = rng.random()
+                if form < 0.4:
+                    p = RR.abs_path(par, names, t, "/")
+                elif form < 0.7:
+                    p = "/".join(rng.choice(names + ["..", "..", ".", "zz"]) for _ in range(rng.randint(1, 4)))
+                else:
+                    p = "/".join([".."] * rng.randint(0, 2) + [names[t]])
+                if rng.random() < 0.3:
+                    p = p.swapcase()
+                for ic in (False, True):
+                    for relax in (False, True):
+                        ctx.case(("hist", h, len(case["history"]), q, ic, relax), nontrivial=True)
+                        if not check_get(ctx, lib, nodes, idmap, par, ch, names, s, p, "/", ic, relax, c2, resolver=res[(ic, relax)]):
+                            return
 
 
 def replay(ctx, wit):
+    if "history" in wit["case"]:
+        return replay_history(ctx, wit)
+    _replay_static(ctx, wit)
+
+
+def replay_history(ctx, wit):
+    """Re-runs the structural history with the recorded renames and asks the witness query (and the
+    absolute path of every node) after every step through long-lived resolvers."""
+    from .. import trees as TR
+    from ..common import lib as getlib
+
+    lib = getlib()
+    c = wit["case"]
+    ctx.case(("replay",))
+    res = {(ic, relax): lib.Resolver("name", ignorecase=ic, relax=relax) for ic in (False, True) for relax in (False, True)}
+    names = None
+    for step, (nodes, par, ch) in enumerate(TR.replay_universe(c)):
+        if names is None:
+            names = [n.name for n in nodes]
+        for st, what, i, x in c.get("renames", []):
+            if st == step:
+                if what == "swap":
+                    names[i], names[x] = names[x], names[i]
+                    nodes[i].name, nodes[x].name = names[i], names[x]
+                else:
+                    names[i] = x
+                    nodes[i].name = x
+        idmap = {id(o): i for i, o in enumerate(nodes)}
+        paths = [c["path"]] if "path" in c else []
+        paths += [RR.abs_path(par, names, t, "/") for t in range(len(nodes))]
+        for p in paths:
+            for s in range(len(nodes)):
+                for key, r in res.items():
+                    check_get(ctx, lib, nodes, idmap, par, ch, names, s, p, "/", key[0], key[1], c, resolver=r)
+
+
+def _replay_static(ctx, wit):
     from ..common import lib as getlib
 
     lib = getlib()
